@@ -59,6 +59,16 @@ func (g *genState) emit(st Step) Exp {
 
 func (g *genState) key() *K {
 	r := g.r
+	if g.cfg.Profile == "bigkeys" && r.Intn(3) == 0 {
+		// keys of half a page to a page and a half: leaves that begin with such keys give branch pages with
+		// overflow pages, and leaf elements whose key alone overflows
+		ps := g.cfg.PageSize
+		l := ps/2 + r.Intn(ps)
+		if l > 32768 {
+			l = 32768
+		}
+		return &K{ID: r.Intn(g.cfg.KeySpace), Len: l}
+	}
 	switch x := r.Intn(40); {
 	case x == 0:
 		return &K{ID: -(1 + r.Intn(len(specialKeys)))}
@@ -123,6 +133,7 @@ var weights = map[string][11]int{
 	"cursor":     {3, 1, 1, 30, 10, 20, 0, 30, 2, 2, 0},
 	"big":        {4, 2, 2, 45, 12, 5, 2, 5, 8, 2, 2},
 	"overwrite":  {1, 0, 0, 70, 8, 4, 1, 2, 4, 1, 0},
+	"bigkeys":    {4, 1, 2, 55, 12, 6, 1, 6, 8, 2, 1},
 }
 
 func (g *genState) pick() int {
